@@ -149,6 +149,46 @@ def enc_tx(tx, with_witness=True, fieldmap=None, base=0):
     return bytes(out)
 
 
+def compact_long(n, extra=1):
+    """A non-minimal CompactSize for n (`extra` size classes wider than needed); None if none exists."""
+    forms = []
+    if n < 0xfd:
+        forms = [b'\xfd' + struct.pack('<H', n), b'\xfe' + struct.pack('<I', n), b'\xff' + struct.pack('<Q', n)]
+    elif n <= 0xffff:
+        forms = [b'\xfe' + struct.pack('<I', n), b'\xff' + struct.pack('<Q', n)]
+    elif n <= 0xffffffff:
+        forms = [b'\xff' + struct.pack('<Q', n)]
+    if not forms:
+        return None
+    return forms[min(extra - 1, len(forms) - 1)]
+
+
+def enc_tx_loose(tx, mode, sel=0):
+    """An encoding of tx that is NOT the canonical one but that lenient decoders accept:
+    'marker-empty': BIP144 marker/flag present although every witness stack is empty;
+    'nonminimal':   one CompactSize (the sel-th) written wider than necessary.
+    Returns None when the transaction offers no such encoding."""
+    if mode == 'marker-empty':
+        if tx_has_witness(tx) or not tx['vin']:
+            return None
+        body = enc_tx(tx, with_witness=False)
+        return body[:4] + b'\x00\x01' + body[4:-4] + b'\x00' * len(tx['vin']) + body[-4:]
+    if mode == 'nonminimal':
+        fm = []
+        body = enc_tx(tx, fieldmap=fm)
+        sites = [off for off, name in fm if name.endswith('.count') or name.endswith('.script') or '.item' in name]
+        if not sites:
+            return None
+        off = sites[sel % len(sites)]
+        r = Reader(body, off)
+        n = r.compact()
+        wide = compact_long(n, 1 + (sel // len(sites)) % 3)
+        if wide is None:
+            return None
+        return body[:off] + wide + body[r.p:]
+    raise ValueError(mode)
+
+
 def dec_tx(r):
     """Decode one transaction from Reader r (consensus behaviour: 00 01 after the version is
     the BIP144 marker/flag)."""
